@@ -49,3 +49,31 @@ Proof. vm_compute. repeat split. Qed.
 Example C01_hyp_satisfiable :
   ev_privileged_allows (fun x _ => match lv_level x with Privileged => [] | _ => [CR false "no" ""] end).
 Proof. intros v p. reflexivity. Qed.
+
+(** ---- end to end: admission layer composed with the standard (C02) ---- *)
+From PSA Require Import Model.Shipped Spec.PSS Spec.P02 Proofs.EndToEnd Proofs.C02_table.
+(** with the shipped checks, a pod request that reaches evaluation is allowed
+    exactly when the pod complies with the Pod Security Standards (Spec/PSS.v)
+    at the enforce level and version its namespace resolves to *)
+Theorem C01_end_to_end : forall c relax r w ls p m,
+  evaluated_pod c r w = Some (ls, p) ->
+  api_valid p = true -> relaxed_for relax p = false ->
+  effective_minor (lv_version (enforce (spec_policy ls (cf_defaults c)))) = Some m ->
+  rs_allowed (fst (validate c (shipped_evaluator relax) r w))
+  = compliant (lv_level (enforce (spec_policy ls (cf_defaults c)))) m p.
+Proof. exact end_to_end_proof. Qed.
+Print Assumptions C01_end_to_end.
+
+(** non-vacuity: a valid pod (Proofs/C02_table.v) compliant at Baseline but not at
+    Restricted; the same CREATE is allowed under enforce=baseline and denied under
+    enforce=restricted, both at v1.24 *)
+Example C01_end_to_end_in_scope :
+  let lb := [(enforce_level_label, "baseline"%string); (enforce_version_label, "v1.24"%string)] in
+  let lr := [(enforce_level_label, "restricted"%string); (enforce_version_label, "v1.24"%string)] in
+  let r := Request "" "pods" "" "ns" "p" "u" OpCreate (OPod example_pod_fixed) ONil None in
+  evaluated_pod cex_cfg r (World (Some lr) "" None None 0) = Some (lr, example_pod_fixed)
+  /\ api_valid example_pod_fixed = true /\ relaxed_for false example_pod_fixed = false
+  /\ effective_minor (lv_version (enforce (spec_policy lr (cf_defaults cex_cfg)))) = Some 24%N
+  /\ rs_allowed (fst (validate cex_cfg (shipped_evaluator false) r (World (Some lb) "" None None 0))) = true
+  /\ rs_allowed (fst (validate cex_cfg (shipped_evaluator false) r (World (Some lr) "" None None 0))) = false.
+Proof. vm_compute. repeat split; reflexivity. Qed.
